@@ -10,6 +10,9 @@ Re-run by the property's own check on every run (`harness/c05.py`, `c09.py`, `c0
     ttp/errors.py        count_errors      -> lean/Gen/CountErrors.lean  (namespace Gen.CountErrors)
     binpacking2d/objectives/bin_count_and_{last_empty,empty,last_small,small}.py
                                            -> lean/Gen/BinCountAnd{LastEmpty,Empty,LastSmall,Small}.lean
+    tsp/ea1p1_revn.py    rev_if_not_worse  -> lean/Gen/RevIfNotWorse.lean     (result: (x, returned value))
+    tsp/fea1p1_revn.py   rev_if_h_not_worse -> lean/Gen/RevIfHNotWorse.lean   (result: (h, x, returned value))
+    order1d/distances.py swap_distance     -> lean/Gen/SwapDistance.lean      (parameters `np_argsort`, `fuel`)
 
 The output is a Lean `def` in the `Option` monad written in `do` notation (`let mut`, `for … in … do`, `if`, `continue`
 are native Lean), so it reads like the Python source.  `Props/C05Gen.lean`, `C09Gen.lean`, `C08Gen.lean`, `C15Gen.lean` prove that
@@ -39,6 +42,21 @@ Semantics of the embedding
 * `len(a)` is the number of elements (rows) of `a`; `max(a, b)` / `min(a, b)` are Lean's; `a[lo:hi].min()` /
   `.max()` of a 1-D array go through `sliceMin?` / `sliceMax?`: numpy's slice rules (a negative bound counts from the
   end, bounds are clipped to the array) and `none` for an empty slice (numpy raises `ValueError`);
+* for the kernels registered with `result_arrays` the arrays the function writes into are NOT scratch: the generated
+  function returns `(written arrays in parameter order …, returned value)`;
+* `return e` may also be the last statement of an `if` branch outside any loop (Lean's `return` leaves the function);
+* `a[lo:hi:1] = b[lo2:hi2:s]` (1-D, literal steps, target step 1, source step 1 or -1) is `a := (← setSlice? a lo hi
+  (getSlice b lo2 hi2 s))`: Python's `slice.indices` rules (negative bounds count from the end, bounds are clipped, a
+  missing bound is the end in the direction of the step), the right-hand side is read completely before the write
+  (numpy's overlap rule), a length mismatch is `none` (`ValueError`);
+* `while cond: body` is a loop BY FUEL: the generated function gets an extra parameter `fuel : Nat` and the loop
+  becomes `for _ in List.range fuel do (if ¬ cond then break); body`, followed by `if cond then none` — running out
+  of fuel is a failure of the `Option` monad, like an access outside an array (every `while` loop of the function
+  gets the full `fuel`);
+* `np.argsort` is not modelled: it becomes a parameter `np_argsort : List Int → List Int` of the generated function;
+  `x = b[np.argsort(a)]` (fancy indexing) is the checked `gather? b (np_argsort a)`;
+* `u = np.ones(n, DEFAULT_BOOL)` is a local `List Bool` (`onesB? n`, `none` for a negative `n`) that may be read in
+  conditions (`if u[i]:`) and written with `u[i] = True | False`;
 * a name that is not a local is looked up as a module-level integer constant (`NAME[: Final[int]] = INT` in the same
   module or in the module it is imported from with `from M import NAME`) and emitted as `def NAME : Int := INT`;
 * `//` and `%` are Python's floor division and modulus (`Int.fdiv`, `Int.fmod`); a zero divisor yields `none`
@@ -51,16 +69,19 @@ Accepted grammar — everything else raises `Untranslatable` (never guessed):
     stmt  ::= NAME [: int | Final[int]] = expr | NAME (+=|-=|*=) expr | NAME, NAME = ARR.shape
             | NAME [: bool] = True | False | BOOLNAME | NAME = ARR[:, ix]
             | ARR[ix] = expr | ARR[ix, ix] = expr | ARR[ix(, ix)] (+=|-=|*=) expr | ARR.fill(expr)
+            | ARR[[expr]:[expr][:1]] = ARR[[expr]:[expr][:1|-1]]
+            | NAME [: np.ndarray] = ARR[np.argsort(ARR)] | NAME [: np.ndarray] = np.ones(expr, DEFAULT_BOOL | bool)
+            | BOOLARR[ix] = True | False | while cond: stmt+
             | for NAME in ARR: stmt+ | for NAME, NAME in enumerate(ARR): stmt+
             | for NAME in range(expr [, expr]): stmt+
             | if cond: stmt+ (elif cond: stmt+)* [else: stmt+] | continue | break
-    return::= return expr            (last statement of the function only)
+    return::= return expr            (last statement of the function, or of an `if` branch that is not inside a loop)
     expr  ::= INT | NAME | expr (+|-|*|//|%) expr | -expr | +expr | ARR[ix] | ARR[ix, ix] | int(expr) | (expr)
             | abs(expr) | expr if cond else expr      (no array read / non-literal division inside the branches)
             | len(ARR) | max(expr, expr) | min(expr, expr) | ARR[[expr]:[expr]].min() | ARR[[expr]:[expr]].max()
             | MODULE_CONSTANT
     ix    ::= expr | -INT            (literal negative index: first axis only)
-    cond  ::= expr (<|<=|>|>=|==|!=) expr | BOOLNAME | cond and cond | cond or cond | not cond
+    cond  ::= expr (<|<=|>|>=|==|!=) expr | BOOLNAME | BOOLARR[ix] | cond and cond | cond or cond | not cond
               (the right operand of and/or must not read an array or divide: Lean would hoist the partial operation
               out of the short-circuit.  One exception, translated faithfully: `if c1 or c2 …: block` without `else`
               whose block ends in `continue`/`break` becomes `if c1 then block; if c2 then block; …`)
@@ -93,10 +114,15 @@ KERNELS = {
     "BinCountAndLastSmall": ("moptipyapps/binpacking2d/objectives/bin_count_and_last_small.py", "bin_count_and_last_small"),
     "BinCountAndSmall": ("moptipyapps/binpacking2d/objectives/bin_count_and_small.py", "bin_count_and_small"),
 }
+KERNELS["SwapDistance"] = ("moptipyapps/order1d/distances.py", "swap_distance")
+KERNELS["RevIfNotWorse"] = ("moptipyapps/tsp/ea1p1_revn.py", "rev_if_not_worse")
+KERNELS["RevIfHNotWorse"] = ("moptipyapps/tsp/fea1p1_revn.py", "rev_if_h_not_worse")
+# kernels whose written arrays are results (returned together with the value), not scratch
+RESULT_ARRAYS = {"RevIfNotWorse", "RevIfHNotWorse"}
 BINOBJ_KEYS = ["BinCountAndLastEmpty", "BinCountAndEmpty", "BinCountAndLastSmall", "BinCountAndSmall"]
 
 # names of the prelude and of Lean itself that a Python identifier must not shadow
-RESERVED = {"idx?", "get1?", "get2?", "getCol?", "set1?", "set2?", "pySlice", "listMin?", "listMax?", "sliceMin?",
+RESERVED = {"fuel", "np_argsort", "gather?", "onesB?", "getB?", "setB?", "idx?", "get1?", "get2?", "getCol?", "set1?", "set2?", "getSlice", "setSlice?", "pySlice", "listMin?", "listMax?", "sliceMin?",
             "sliceMax?", "max", "min", "fill1", "fill2", "pyFloorDiv", "pyMod", "pyRange", "pyEnumerate", "Int", "Nat", "List", "Option", "some",
             "none", "pure", "forIn", "ForInStep"}
 LEAN_KEYWORDS = {
@@ -171,6 +197,46 @@ def sliceMin? (a : List Int) (lo hi : Int) : Option Int := listMin? (pySlice a l
 def sliceMax? (a : List Int) (lo hi : Int) : Option Int := listMax? (pySlice a lo hi)
 '''
 
+PRELUDE_SLICEASSIGN = '''\
+/-- the elements of `a[lo:hi:step]` for `step = 1` or `step = -1` (Python's `slice.indices`): a negative bound counts
+from the end, bounds are clipped, a missing bound (`none`) is the end of the array in the direction of the step -/
+def getSlice (a : List Int) (lo hi : Option Int) (step : Int) : List Int :=
+  let len : Int := a.length
+  if step > 0 then
+    let norm := fun (k : Int) => if k < 0 then max (k + len) 0 else min k len
+    let l := match lo with | none => 0 | some k => norm k
+    let h := match hi with | none => len | some k => norm k
+    (a.drop l.toNat).take (h.toNat - l.toNat)
+  else
+    let norm := fun (k : Int) => if k < 0 then max (k + len) (-1) else min k (len - 1)
+    let l := match lo with | none => len - 1 | some k => norm k
+    let h := match hi with | none => -1 | some k => norm k
+    ((a.take (l + 1).toNat).drop (h + 1).toNat).reverse
+
+/-- `a[lo:hi:1] = v`; `none` = the lengths differ (`ValueError`) -/
+def setSlice? (a : List Int) (lo hi : Option Int) (v : List Int) : Option (List Int) :=
+  let len : Int := a.length
+  let norm := fun (k : Int) => if k < 0 then max (k + len) 0 else min k len
+  let l := match lo with | none => 0 | some k => norm k
+  let h := match hi with | none => len | some k => norm k
+  let cnt := h.toNat - l.toNat
+  if v.length = cnt then some (a.take l.toNat ++ v ++ a.drop (l.toNat + cnt)) else none
+'''
+
+PRELUDE_GATHER = '''\
+/-- `a[idx]` with an index ARRAY (fancy indexing): every index is resolved like a scalar index -/
+def gather? (a idx : List Int) : Option (List Int) := idx.mapM (get1? a)
+'''
+
+PRELUDE_BOOLARR = '''\
+/-- `np.ones(n, bool)`; `none` = negative `n` (`ValueError`) -/
+def onesB? (n : Int) : Option (List Bool) := if n < 0 then none else some (List.replicate n.toNat true)
+
+/-- checked `u[i]` / `u[i] = v` on a bool array -/
+def getB? (u : List Bool) (i : Int) : Option Bool := (idx? u.length i).bind (u[·]?)
+def setB? (u : List Bool) (i : Int) (v : Bool) : Option (List Bool) := (idx? u.length i).map fun k => u.set k v
+'''
+
 PRELUDE_DIV = '''\
 /-- Python `a // b` (floor division); `none` = `ZeroDivisionError` -/
 def pyFloorDiv (a b : Int) : Option Int := if b = 0 then none else some (a.fdiv b)
@@ -197,8 +263,14 @@ def _is_name(node, name: str) -> bool:
 class Fn:
     """Translator state for one function."""
 
-    def __init__(self, fn: ast.FunctionDef, rel: str, consts=None) -> None:
+    def __init__(self, fn: ast.FunctionDef, rel: str, consts=None, result_arrays: bool = False) -> None:
         self.fn, self.rel = fn, rel
+        self.result_arrays = result_arrays          # the written arrays are part of the result
+        self.uses_sliceassign = False
+        self.uses_fuel = any(isinstance(n, ast.While) for n in ast.walk(fn))
+        self.uses_argsort = any(self.is_argsort(n) for n in ast.walk(fn))
+        self.uses_boolarr = False
+        self.uses_gather = False
         self.consts = consts or (lambda name: None)   # module-level integer constants (name -> int | None)
         self.used_consts: dict[str, int] = {}
         self.uses_slice = False
@@ -212,8 +284,15 @@ class Fn:
         self.mutated: list[str] = []                # array parameters written by the function (procedure), in order
         self.procedure = False                      # `-> None`: the result is the final content of the written arrays
         self.uses_div = False
+        self.in_if = 0
         self.uses_col = False
         self.types: dict[str, str] = {}             # local name -> "Int" | "Bool" | "Arr1"
+
+    @staticmethod
+    def is_argsort(n) -> bool:
+        return (isinstance(n, ast.Call) and isinstance(n.func, ast.Attribute) and n.func.attr == "argsort"
+                and isinstance(n.func.value, ast.Name) and n.func.value.id in ("np", "numpy")
+                and len(n.args) == 1 and not n.keywords and isinstance(n.args[0], ast.Name))
 
     def bad(self, node, why: str):
         raise Untranslatable(f"{self.rel}:{self.fn.name}: line {getattr(node, 'lineno', '?')}: {why}")
@@ -255,6 +334,8 @@ class Fn:
                     dim(node.value.id, 1, node)     # only `a[lo:hi].min()/.max()` is accepted (checked in `expr`)
                 else:
                     dim(node.value.id, 1, node)
+            elif self.is_argsort(node) and node.args[0].id in self.arrays:
+                dim(node.args[0].id, 1, node)
             elif isinstance(node, ast.For):
                 it = node.iter
                 if isinstance(it, ast.Name) and it.id in self.arrays:
@@ -318,7 +399,7 @@ class Fn:
                            f"a module-level integer constant)")
         if kind == "pending":
             self.bad(node, f"name {node.id} is read in a branch before the branch has assigned it")
-        if kind == "localarray":
+        if kind in ("localarray", "localarrayB"):
             self.bad(node, f"array {node.id} is used as a value")
         if self.types.get(node.id) == "Bool":
             self.bad(node, f"bool {node.id} is used as an integer")
@@ -367,6 +448,8 @@ class Fn:
                 return f"(-{self.expr(node.operand, 100)})"
             self.bad(node, f"unary operator {type(node.op).__name__} is not an integer expression")
         if isinstance(node, ast.Subscript):
+            if isinstance(node.value, ast.Name) and self.lookup(node.value.id) == "localarrayB":
+                self.bad(node, f"an element of the bool array {node.value.id} is used as an integer")
             if isinstance(node.value, ast.Name) and self.lookup(node.value.id) == "localarray":
                 if isinstance(node.slice, (ast.Tuple, ast.Slice)):
                     self.bad(node, f"{node.value.id} is a 1-D array")
@@ -418,10 +501,11 @@ class Fn:
         self.bad(node, f"expression {type(node).__name__} is not supported")
 
     def is_array(self, name: str) -> bool:
-        return (name in self.arrays and self.lookup(name) in ("param", "array")) or self.lookup(name) == "localarray"
+        return (name in self.arrays and self.lookup(name) in ("param", "array")) \
+            or self.lookup(name) in ("localarray", "localarrayB")
 
     def array_dim(self, name: str) -> int:
-        return 1 if self.lookup(name) == "localarray" else self.arrays[name]
+        return 1 if self.lookup(name) in ("localarray", "localarrayB") else self.arrays[name]
 
     @staticmethod
     def partial(node) -> bool:
@@ -454,6 +538,12 @@ class Fn:
             return f"({s})" if p < prec else s
         if isinstance(node, ast.UnaryOp) and isinstance(node.op, ast.Not):
             return f"¬ {self.cond(node.operand, 51)}"
+        if isinstance(node, ast.Subscript) and isinstance(node.value, ast.Name) \
+                and self.lookup(node.value.id) == "localarrayB":
+            if isinstance(node.slice, (ast.Tuple, ast.Slice)):
+                self.bad(node, f"{node.value.id} is a 1-D array")
+            s = f"(← getB? {lean_ident(node.value.id)} {self.index(node.value.id, node.slice, 0)}) = true"
+            return f"({s})" if prec > 50 else s
         if isinstance(node, ast.Name) and self.types.get(node.id) == "Bool" and self.lookup(node.id) in ("let", "mut"):
             s = f"{lean_ident(node.id)} = true"
             return f"({s})" if prec > 50 else s
@@ -525,11 +615,15 @@ class Fn:
             if isinstance(st, ast.Return):
                 if self.procedure:
                     self.bad(st, "`return` in a `-> None` function is not supported")
-                if not last:
-                    self.bad(st, "`return` is supported as the last statement of the function only")
+                if not last and not (k == len(stmts) - 1 and self.loop_depth == 0 and self.in_if > 0):
+                    self.bad(st, "`return` is supported as the last statement of the function or of an `if` branch "
+                                 "outside any loop only")
                 if st.value is None:
                     self.bad(st, "`return` without a value")
-                self.emit(ind, f"return {self.expr(st.value)}")
+                val = self.expr(st.value)
+                if self.result_arrays and self.mutated:
+                    val = "(" + ", ".join([lean_ident(a) for a in self.mutated] + [val]) + ")"
+                self.emit(ind, f"return {val}")
             elif last and not self.procedure:
                 self.bad(st, "the function must end with `return expr`")
             else:
@@ -542,7 +636,11 @@ class Fn:
         self.scopes.pop()
 
     def stmt(self, st, ind: int) -> None:
-        if isinstance(st, ast.AnnAssign):
+        if isinstance(st, (ast.AnnAssign, ast.Assign)) and self.local_array_stmt(st, ind):
+            return
+        if isinstance(st, ast.While):
+            self.while_(st, ind)
+        elif isinstance(st, ast.AnnAssign):
             if not isinstance(st.target, ast.Name) or st.value is None or not st.simple:
                 self.bad(st, "only `name: int = expr` is supported")
             self.assign_value(st, st.target.id, st.value, ind, self.int_annotation(st))
@@ -554,6 +652,8 @@ class Fn:
                 self.column(st, t.id, st.value, ind)
             elif isinstance(t, ast.Name):
                 self.assign_value(st, t.id, st.value, ind)
+            elif isinstance(t, ast.Subscript) and isinstance(t.slice, ast.Slice):
+                self.slice_assign(st, t, ind)
             elif isinstance(t, ast.Subscript):
                 self.store(st, t, ind)
             elif (isinstance(t, ast.Tuple) and len(t.elts) == 2 and all(isinstance(e, ast.Name) for e in t.elts)
@@ -606,6 +706,76 @@ class Fn:
         else:
             self.bad(st, f"statement {type(st).__name__} is not supported")
 
+    def local_array_stmt(self, st, ind: int) -> bool:
+        """`x = b[np.argsort(a)]`, `u = np.ones(n, DEFAULT_BOOL)`, `u[i] = True/False`; False = not one of these"""
+        if isinstance(st, ast.AnnAssign):
+            tgt, val = st.target, st.value
+            if val is None:
+                return False
+            ann = ast.unparse(st.annotation)
+        else:
+            if len(st.targets) != 1:
+                return False
+            tgt, val, ann = st.targets[0], st.value, None
+        # store into a local bool array
+        if isinstance(tgt, ast.Subscript) and isinstance(tgt.value, ast.Name) and self.lookup(tgt.value.id) == "localarrayB":
+            if isinstance(tgt.slice, (ast.Tuple, ast.Slice)) or not self.is_bool_const(val):
+                self.bad(st, "only `u[i] = True | False` is supported on a bool array")
+            u = lean_ident(tgt.value.id)
+            self.emit(ind, f"{u} := (← setB? {u} {self.index(tgt.value.id, tgt.slice, 0)} "
+                           f"{'true' if val.value else 'false'})")
+            return True
+        if not isinstance(tgt, ast.Name):
+            return False
+        gather = (isinstance(val, ast.Subscript) and isinstance(val.value, ast.Name) and self.is_argsort(val.slice))
+        ones = (isinstance(val, ast.Call) and isinstance(val.func, ast.Attribute) and val.func.attr == "ones"
+                and isinstance(val.func.value, ast.Name) and val.func.value.id in ("np", "numpy"))
+        if not (gather or ones):
+            if ann in ("np.ndarray", "numpy.ndarray", "ndarray"):
+                self.bad(st, "a local array must be `b[np.argsort(a)]` or `np.ones(n, DEFAULT_BOOL)`")
+            return False
+        if ann not in (None, "np.ndarray", "numpy.ndarray", "ndarray"):
+            self.bad(st, f"unsupported annotation {ann} of a local array")
+        name = tgt.id
+        if self.lookup(name) is not None or name in self.arrays or self.assign_count.get(name, 0) != 1:
+            self.bad(st, f"the local array {name} must be a fresh name that is assigned once")
+        if gather:
+            b, a = val.value.id, val.slice.args[0].id
+            for arr in (a, b):
+                if not (arr in self.arrays and self.lookup(arr) == "param" and self.arrays[arr] == 1
+                        and arr not in self.mutated):
+                    self.bad(st, f"`b[np.argsort(a)]` needs 1-D array parameters that are never written ({arr})")
+            self.uses_gather = True
+            self.scopes[-1][name] = "localarray"
+            self.types[name] = "Arr1"
+            self.emit(ind, f"let {lean_ident(name)} : List Int := (← gather? {lean_ident(b)} (np_argsort {lean_ident(a)}))")
+            return True
+        if len(val.args) != 2 or val.keywords:
+            self.bad(st, "only `np.ones(n, DEFAULT_BOOL)` is supported")
+        dt = ast.unparse(val.args[1])
+        if dt not in ("DEFAULT_BOOL", "bool", "np.bool_", "numpy.bool_"):
+            self.bad(st, f"only a bool array is supported as a local `np.ones` array, not dtype {dt}")
+        if self.partial(val.args[0]):
+            self.bad(st, "an array read or a division in the size of `np.ones` is not supported")
+        self.uses_boolarr = True
+        self.scopes[-1][name] = "localarrayB"
+        self.types[name] = "ArrB"
+        self.emit(ind, f"let mut {lean_ident(name)} : List Bool := (← onesB? {self.expr(val.args[0], 100)})")
+        return True
+
+    def while_(self, st: ast.While, ind: int) -> None:
+        """a loop by fuel: at most `fuel` iterations, then the condition must be false"""
+        if st.orelse:
+            self.bad(st, "`while … else` is not supported")
+        self.emit(ind, "for _ in List.range fuel do  -- while (by fuel)")
+        self.emit(ind + 1, f"if ¬ ({self.cond(st.test)}) then")
+        self.emit(ind + 2, "break")
+        self.loop_depth += 1
+        self.block(st.body, ind + 1)
+        self.loop_depth -= 1
+        self.emit(ind, f"if {self.cond(st.test)} then")
+        self.emit(ind + 1, "none  -- the fuel ran out before the loop ended")
+
     def is_column(self, v) -> bool:
         return (isinstance(v, ast.Subscript) and isinstance(v.slice, ast.Tuple) and len(v.slice.elts) == 2
                 and isinstance(v.slice.elts[0], ast.Slice))
@@ -629,6 +799,45 @@ class Fn:
         self.scopes[-1][name] = "localarray"
         self.types[name] = "Arr1"
         self.emit(ind, f"let {lean_ident(name)} : List Int := (← getCol? {lean_ident(arr)} {j})")
+
+    def slice_parts(self, node, sl: ast.Slice, allowed_steps) -> tuple[str, str, int]:
+        step = 1
+        if sl.step is not None:
+            k = sl.step
+            if isinstance(k, ast.UnaryOp) and isinstance(k.op, ast.USub) and isinstance(k.operand, ast.Constant) \
+                    and type(k.operand.value) is int:
+                step = -k.operand.value
+            elif isinstance(k, ast.Constant) and type(k.value) is int:
+                step = k.value
+            else:
+                self.bad(node, "a slice step must be an integer literal")
+        if step not in allowed_steps:
+            self.bad(node, f"slice step {step} is not supported here (allowed: {sorted(allowed_steps)})")
+        for b in (sl.lower, sl.upper):
+            if b is not None and self.partial(b):
+                self.bad(node, "an array read or a division inside a slice bound is not supported")
+        lo = "none" if sl.lower is None else f"(some {self.expr(sl.lower, 100)})"
+        hi = "none" if sl.upper is None else f"(some {self.expr(sl.upper, 100)})"
+        return lo, hi, step
+
+    def slice_assign(self, st, t: ast.Subscript, ind: int) -> None:
+        """`a[lo:hi:1] = b[lo2:hi2:±1]` on 1-D integer arrays"""
+        if not (isinstance(t.value, ast.Name) and t.value.id in self.mutated and self.arrays[t.value.id] == 1):
+            self.bad(st, "a slice assignment needs a 1-D array parameter as its target")
+        arr = t.value.id
+        if self.lookup(arr) != "array":
+            self.bad(st, f"array name {arr} is shadowed")
+        v = st.value
+        if not (isinstance(v, ast.Subscript) and isinstance(v.slice, ast.Slice) and isinstance(v.value, ast.Name)
+                and self.is_array(v.value.id) and self.array_dim(v.value.id) == 1
+                and self.types.get(v.value.id) != "ArrB"):
+            self.bad(st, "the right-hand side of a slice assignment must be a slice of a 1-D integer array")
+        lo, hi, _ = self.slice_parts(st, t.slice, {1})
+        lo2, hi2, step2 = self.slice_parts(st, v.slice, {1, -1})
+        self.uses_sliceassign = True
+        a, b = lean_ident(arr), lean_ident(v.value.id)
+        step_txt = str(step2) if step2 > 0 else f"({step2})"
+        self.emit(ind, f"{a} := (← setSlice? {a} {lo} {hi} (getSlice {b} {lo2} {hi2} {step_txt}))")
 
     def store(self, st, t: ast.Subscript, ind: int, aug=None) -> None:
         if not (isinstance(t.value, ast.Name) and t.value.id in self.mutated):
@@ -726,7 +935,9 @@ class Fn:
         if kw == "if":
             hoisted = self.hoist(st, ind)
         self.emit(ind, f"{kw} {self.cond(st.test)} then")
+        self.in_if += 1
         self.block(st.body, ind + 1)
+        self.in_if -= 1
         self.if_tail(st, ind)
         for name in hoisted:        # every branch has assigned it
             self.scopes[-1][name] = "mut"
@@ -777,7 +988,9 @@ class Fn:
                 self.if_(nxt, ind, "else if")       # elif with a pure condition
             else:
                 self.emit(ind, "else")              # (an elif that reads an array is nested: no hoisting of the read)
+                self.in_if += 1
                 self.block(st.orelse, ind + 1)
+                self.in_if -= 1
 
     # ------------------------------------------------------------------ the function
     def translate(self) -> str:
@@ -803,10 +1016,22 @@ class Fn:
                     params.append(f"({lean_ident(sh)} : Int × Int)")
             else:
                 params.append(f"({lean_ident(p.arg)} : Int)")
+        extra = []
+        if self.uses_argsort:
+            extra.append("(np_argsort : List Int → List Int)")
+        if self.uses_fuel:
+            extra.append("(fuel : Nat)")
+        for nm in ("np_argsort", "fuel"):
+            if nm in top or nm in self.assign_count:
+                self.bad(self.fn, f"the name {nm} is needed for a parameter of the generated function")
+        params = extra + params
         self.scopes = [top]
         if self.procedure:
             tys = ["List Int" if self.arrays[a] == 1 else "List (List Int)" for a in self.mutated]
             rty = "(" + " × ".join(tys) + ")"
+        elif self.result_arrays and self.mutated:
+            tys = ["List Int" if self.arrays[a] == 1 else "List (List Int)" for a in self.mutated]
+            rty = "(" + " × ".join(tys + ["Int"]) + ")"
         else:
             rty = "Int"
         self.lines = [f"def {lean_ident(self.fn.name)} {' '.join(params)} : Option {rty} := do"]
@@ -877,7 +1102,7 @@ def module_consts(repo: Path, tree: ast.Module):
     return lookup
 
 
-def translate_function(repo: Path, rel: str, fname: str, ns: str) -> str:
+def translate_function(repo: Path, rel: str, fname: str, ns: str, result_arrays: bool = False) -> str:
     """The text of a generated file (namespace `Gen.<ns>`) for function `fname` of `repo/rel`."""
     path = Path(repo) / rel
     try:
@@ -889,10 +1114,14 @@ def translate_function(repo: Path, rel: str, fname: str, ns: str) -> str:
     if len(fns) != 1:
         raise Untranslatable(f"{rel}: expected exactly one top-level function {fname}, found {len(fns)}")
     fn = fns[0]
-    tr = Fn(fn, rel, module_consts(repo, tree))
+    tr = Fn(fn, rel, module_consts(repo, tree), result_arrays)
     code = tr.translate()
     prelude = (PRELUDE + ("\n" + PRELUDE_COL if tr.uses_col else "") + ("\n" + PRELUDE_STORE if tr.mutated else "")
-               + ("\n" + PRELUDE_SLICE if tr.uses_slice else "") + ("\n" + PRELUDE_DIV if tr.uses_div else ""))
+               + ("\n" + PRELUDE_SLICE if tr.uses_slice else "")
+               + ("\n" + PRELUDE_SLICEASSIGN if tr.uses_sliceassign else "")
+               + ("\n" + PRELUDE_GATHER if tr.uses_gather else "")
+               + ("\n" + PRELUDE_BOOLARR if tr.uses_boolarr else "")
+               + ("\n" + PRELUDE_DIV if tr.uses_div else ""))
     consts = "".join(f"/-- module-level constant of the Python source -/\ndef {lean_ident(k)} : Int := {v}\n\n"
                      for k, v in tr.used_consts.items())
     return "\n".join([
@@ -918,7 +1147,7 @@ def translate_function(repo: Path, rel: str, fname: str, ns: str) -> str:
 def translate(repo: Path, key: str) -> str:
     """The text of `lean/Gen/<key>.lean` for the current source under `repo`."""
     rel, fname = KERNELS[key]
-    return translate_function(repo, rel, fname, key)
+    return translate_function(repo, rel, fname, key, key in RESULT_ARRAYS)
 
 
 def emit(repo: Path, lean_dir: Path, key: str) -> Path:
@@ -948,6 +1177,18 @@ def emit_map_games(repo: Path, lean_dir: Path) -> Path:
 
 def emit_count_errors(repo: Path, lean_dir: Path) -> Path:
     return emit(repo, lean_dir, "CountErrors")
+
+
+def emit_swap_distance(repo: Path, lean_dir: Path) -> Path:
+    return emit(repo, lean_dir, "SwapDistance")
+
+
+def emit_rev_if_not_worse(repo: Path, lean_dir: Path) -> Path:
+    return emit(repo, lean_dir, "RevIfNotWorse")
+
+
+def emit_rev_if_h_not_worse(repo: Path, lean_dir: Path) -> Path:
+    return emit(repo, lean_dir, "RevIfHNotWorse")
 
 
 def emit_binobj(repo: Path, lean_dir: Path) -> dict[str, Exception | None]:
